@@ -298,6 +298,11 @@ def sized_shapes():
         ("dict", (("a", False, INT), ("b", True, STR)), "first"),
         ("list", ("typed", ("dict", (("a", False, a), ("b", False, b)), "mid")), ()),
         ("add", ("dict", (("a", False, INT),), True), ("dict", (("b", False, a), ("c", True, b)), True)),
+        # fully fixed element lists under every length form that admits them
+        ("list", ("elems", (INT, STR)), (ln(1, E),)), ("list", ("elems", (INT, STR)), (ln(E, 4),)),
+        ("list", ("elems", (INT, STR)), (ln(2),)), ("list", ("elems", (a, b, c)), (ln(2, 5),)),
+        ("list", ("elems", (a, b, c)), (ln(3, E),)), ("list", ("typed", INT), (ln(1, 4),)),
+        ("dict", (("k", False, ("list", ("elems", (INT, STR)), (ln(1, E),))),), False),
         ("list", ("elems", (a, b, c)), ()), ("list", ("elems", (a, b, c, E)), ()),
         ("list", ("elems", (E, a, b, c)), ()), ("list", ("elems", (E, a, b, c, E)), ()),
         ("list", ("elems", (a, a, b)), ()), ("list", ("elems", (E, a, a, b, E)), ()),
